@@ -43,9 +43,15 @@ func (c *simChan) Send(b []byte) error {
 		return io.ErrClosedPipe
 	default:
 	}
+	// the lock is hidden from the race detector: the client draining its pipe must not make
+	// everything a handler did before writing its answer happen-before whatever the client sends
+	// next (an in-flight client does not wait for answers)
+	cp := append([]byte(nil), b...)
+	simrt.RaceOff()
 	c.mu.Lock()
-	c.out = append(c.out, append([]byte(nil), b...))
+	c.out = append(c.out, cp)
 	c.mu.Unlock()
+	simrt.RaceOn()
 	return nil
 }
 
@@ -64,10 +70,12 @@ func (c *simChan) Close() error {
 }
 
 func (c *simChan) take() [][]byte {
+	simrt.RaceOff()
 	c.mu.Lock()
-	defer c.mu.Unlock()
 	o := c.out
 	c.out = nil
+	c.mu.Unlock()
+	simrt.RaceOn()
 	return o
 }
 
@@ -543,6 +551,12 @@ func (e *Engine) exec(i int, op *Op) {
 			}
 		}
 		e.sendEvents([]pendingEvt{{op.Path, typ}}, i, op.Async)
+	case "touchq":
+		// the watcher reports a change for a file whose bytes did not change (touch, checkout of
+		// identical content); queued like any other event
+		if simfs.Exists(Abs(op.Path)) {
+			e.queueEvent(op.Path, 2)
+		}
 	case "touch":
 		if simfs.Exists(Abs(op.Path)) {
 			e.sendEvents([]pendingEvt{{op.Path, 2}}, i, op.Async)
@@ -748,6 +762,22 @@ func Run(t *testing.T, sc *Scenario, cfg simrt.Config, hooks Hooks) *RunResult {
 }
 
 func runInBubble(t *testing.T, sc *Scenario, cfg simrt.Config, hooks Hooks, res *RunResult) {
+	// A goroutine that is blocked for good in an operation the simulator cannot wake (a real
+	// WaitGroup whose members are gone, ...) makes the bubble end with synctest's "deadlock: main
+	// bubble goroutine has exited but blocked goroutines remain" panic.  The run's verdict has been
+	// recorded by then (such a run is reported as stuck / deadlocked on its own evidence), so the
+	// panic is absorbed; the blocked goroutines are leaked until the worker process is recycled.
+	defer func() {
+		if r := recover(); r != nil {
+			if strings.Contains(fmt.Sprint(r), "blocked goroutines remain") {
+				res.Probes["teardown.leaked-blocked-goroutines"]++
+				simrt.Stop()
+				simfs.Off()
+				return
+			}
+			panic(r)
+		}
+	}()
 	synctest.Test(t, func(t *testing.T) {
 		e := &Engine{sc: sc, res: res, hooks: hooks, byID: map[int]*Answer{}, sentAt: map[int]int{}, Open: map[string][]byte{}, Saved: map[string]bool{}, External: map[string]bool{}, Reverted: map[string]bool{}, version: map[string]int{}}
 		e.budget = hooks.MaxSteps
